@@ -1,15 +1,20 @@
 (* C20 — files pulled in by read cards are merged exactly once, in the right block.
-   Model: Model/ReadQ.v (reading_queue, flush_input's read-card test, the drain loop, path resolution) over
-   Model/Lines.v (the line loop).  Headline theorems only; the proofs are in Proofs/ReadQProofs.v.
+   Model: Model/ReadQ.v (reading_queue, flush_input's read-card test, the drain loop with its cycle test, path
+   resolution) over Model/Lines.v (the line loop).  Headline theorems only; the proofs are in Proofs/ReadQProofs.v.
 
    Vocabulary.  ft : opener            what open(path) + iteration gives (None = no such file);
                                        [fs_text fs cwd] for a byte file system and a working directory.
+                read_all_gft w ft cwd top fuel   montepy's reading of `top` and everything it reads (THE model);
+                read_all w fs cwd top fuel       the same on a byte file system.
                 item = (bt, name, par)  a read card that was met: block type, file name, parent file.
                 bfs n .. q0             the read cards of the first n generations below the top-level file's own
                                         read cards q0, generation by generation, each in the order met.
-                gen_at n .. q0 = []     no read card in generation n: the tree of files is finite (no cycle).
+                gen_at n .. q0 = []     no read card in generation n: the tree of files is finite.
                 ycards ys               (block type, lines) of the inputs handed on (a read card is handed on as
-                                        None and does not appear). *)
+                                        None and does not appear).
+                E_Cycle                 MalformedInputError raised by the cycle test of the drain loop.
+   Statements 1-8 carry the hypothesis "no cycle is reported": the cycle test compares resolved paths, the tree
+   of files is given by path strings; 9-10 say what the cycle test does. *)
 From Coq Require Import List String Ascii Arith Bool Lia.
 From MPV Require Import Model.Wire Model.Lines Model.ReadQ Proofs.ReadQProofs.
 Import ListNotations.
@@ -19,29 +24,31 @@ Open Scope list_scope.
 (* 1. ORDER.  With a finite tree, every file there and read without an error, and one unit of fuel per file: the
    stream is the top-level file's own inputs followed by the files of the read cards in breadth-first order, i.e.
    "in the order the read cards were met", and the reading ends without an error. *)
-Theorem C20_order : forall w ft top fuel ls ys0 q0 n,
+Theorem C20_order : forall w ft cwd top fuel ls ys0 q0 n,
   ft top = Some ls ->
   scan_file w false 0 top (f_rest (read_front_matters ls)) = (ys0, q0, None) ->
   Forall (item_ok w ft (dirname top)) (bfs n w ft (dirname top) q0) ->
   gen_at n w ft (dirname top) q0 = [] ->
   List.length (bfs n w ft (dirname top) q0) <= fuel ->
-  ra_yields (read_all_ft w ft top fuel)
+  ra_error (read_all_gft w ft cwd top fuel) <> Some E_Cycle ->
+  ra_yields (read_all_gft w ft cwd top fuel)
     = ys0 ++ flat_map (item_yields w ft (dirname top)) (bfs n w ft (dirname top) q0)
-  /\ ra_error (read_all_ft w ft top fuel) = None.
-Proof. exact readq_order. Qed.
+  /\ ra_error (read_all_gft w ft cwd top fuel) = None.
+Proof. exact g_order. Qed.
 Print Assumptions C20_order.
 
 (* 2. ONCE.  Each read card contributes the inputs of its file exactly once, as one segment. *)
-Theorem C20_once : forall w ft top fuel ls ys0 q0 n,
+Theorem C20_once : forall w ft cwd top fuel ls ys0 q0 n,
   ft top = Some ls ->
   scan_file w false 0 top (f_rest (read_front_matters ls)) = (ys0, q0, None) ->
   Forall (item_ok w ft (dirname top)) (bfs n w ft (dirname top) q0) ->
   gen_at n w ft (dirname top) q0 = [] ->
   List.length (bfs n w ft (dirname top) q0) <= fuel ->
-  inputs_of (ra_yields (read_all_ft w ft top fuel))
+  ra_error (read_all_gft w ft cwd top fuel) <> Some E_Cycle ->
+  inputs_of (ra_yields (read_all_gft w ft cwd top fuel))
     = inputs_of ys0 ++
       flat_map (fun it => inputs_of (item_yields w ft (dirname top) it)) (bfs n w ft (dirname top) q0).
-Proof. exact readq_once. Qed.
+Proof. exact g_once. Qed.
 Print Assumptions C20_once.
 
 (* 3. BLOCK.  A file that holds one block (nothing but blank lines after its first blank line) yields all its inputs
@@ -64,18 +71,19 @@ Print Assumptions C20_block_refuted.
 
 (* 4. BLOCK + ORDER.  Block b of the problem = the top-level file's own inputs of block b, then the files of the read
    cards that stood in block b, in breadth-first order. *)
-Theorem C20_block_order : forall w ft top fuel ls ys0 q0 n b,
+Theorem C20_block_order : forall w ft cwd top fuel ls ys0 q0 n b,
   ft top = Some ls ->
   scan_file w false 0 top (f_rest (read_front_matters ls)) = (ys0, q0, None) ->
   Forall (item_ok w ft (dirname top)) (bfs n w ft (dirname top) q0) ->
   Forall (item_one_block ft (dirname top)) (bfs n w ft (dirname top) q0) ->
   gen_at n w ft (dirname top) q0 = [] ->
   List.length (bfs n w ft (dirname top) q0) <= fuel ->
-  block_of b (ycards (ra_yields (read_all_ft w ft top fuel)))
+  ra_error (read_all_gft w ft cwd top fuel) <> Some E_Cycle ->
+  block_of b (ycards (ra_yields (read_all_gft w ft cwd top fuel)))
     = block_of b (ycards ys0) ++
       flat_map (fun it => ycards (item_yields w ft (dirname top) it))
                (filter (fun it => Nat.eqb (fst (fst it)) b) (bfs n w ft (dirname top) q0)).
-Proof. exact readq_block_order. Qed.
+Proof. exact g_block_order. Qed.
 Print Assumptions C20_block_order.
 
 (* the hypotheses of 1-4 hold for a tree of depth 3 with read cards in two blocks (bytes in ReadQProofs.ex_fs),
@@ -96,15 +104,16 @@ Example C20_text_result :
   = [ (0, ["1 0 -1"]); (1, ["1 so 5"]); (2, ["mode n"]); (2, ["nps 10"]);
       (0, ["2 0 1"]); (2, ["sdef"]); (2, ["m1 1001.80c 1"]); (2, ["ctme 5"]) ]
   /\ ra_error (read_all 128 ex_fs "/somewhere/else" ex_top 4) = None.
-Proof. exact ex_text_result. Qed.
+Proof. exact ex_g_result. Qed.
 
 (* 5. FLATTENING.  A problem's inputs distributed over a tree of files: the top-level file is a front matter and up to
-   three blocks of cards (the first card of a block may have comment lines in front), every file named by a read card
-   is the cards of one block followed by nothing but blank lines; a card is a line with data in columns 1-5 and its
-   continuation / comment lines (card_ok), no read card is malformed.  Reading the tree gives, block by block, exactly
-   the inputs, message and title of the single file obtained by textual substitution ([flatten]: the block's own
-   cards without the read cards, then the targets, breadth first), and neither reading reports an error. *)
-Theorem C20_flatten : forall w t top front tsf n,
+   three blocks of cards (the first card of a block may have comment lines in front; what stands behind the blank
+   line that ends the third block is not looked at), every file named by a read card is the cards of one block
+   followed by nothing but blank lines; a card is a line with data in columns 1-5 and its continuation / comment
+   lines (card_ok), no read card is malformed.  Reading the tree gives, block by block, exactly the inputs, message
+   and title of the single file obtained by textual substitution ([flatten]: the block's own cards without the read
+   cards, then the targets, breadth first), and neither reading reports an error. *)
+Theorem C20_flatten : forall w t top front tsf n cwd,
   front_ok front ->
   top_ok w tsf = true ->
   slookup t top = None ->
@@ -113,12 +122,13 @@ Theorem C20_flatten : forall w t top front tsf n,
   forall fuel,
   gen_atG (s_children w t (dirname top)) n (reads_of w top (sfile_tcards false 0 tsf)) = [] ->
   List.length (bfsG (s_children w t (dirname top)) n (reads_of w top (sfile_tcards false 0 tsf))) <= fuel ->
-  let r := read_all_ft w (tree_ft top (front ++ render tsf) t) top fuel in
+  ra_error (read_all_gft w (tree_ft top (front ++ render tsf) t) cwd top fuel) <> Some E_Cycle ->
+  let r := read_all_gft w (tree_ft top (front ++ render tsf) t) cwd top fuel in
   let r1 := read_single w (front ++ render (flatten w t top tsf n)) in
   ra_error r = None /\ ra_error r1 = None /\
   by_blocks (ycards (ra_yields r)) = ycards (ra_yields r1) /\
   ra_message r = ra_message r1 /\ ra_title r = ra_title r1.
-Proof. exact readq_flatten. Qed.
+Proof. exact g_flatten. Qed.
 Print Assumptions C20_flatten.
 
 Example C20_flatten_hypotheses :
@@ -129,6 +139,10 @@ Example C20_flatten_hypotheses :
   gen_atG (s_children 128 ex_tree (dirname ex_top)) 3 (reads_of 128 ex_top (sfile_tcards false 0 ex_tsf)) = [] /\
   List.length (bfsG (s_children 128 ex_tree (dirname ex_top)) 3 (reads_of 128 ex_top (sfile_tcards false 0 ex_tsf))) = 4.
 Proof. exact ex_tree_hyps. Qed.
+
+Example C20_flatten_no_cycle_reported :
+  ra_error (read_all_gft 128 (tree_ft ex_top ([L "title"] ++ render ex_tsf) ex_tree) "/elsewhere" ex_top 4) = None.
+Proof. exact ex_tree_no_cycle_report. Qed.
 
 Example C20_flatten_text :
   render (flatten 128 ex_tree ex_top ex_tsf 3)
@@ -148,7 +162,7 @@ Theorem C20_flatten_lead_comment_refuted :
            (bfsG (s_children w t (dirname top)) n (reads_of w top (sfile_tcards false 0 tsf))) /\
     gen_atG (s_children w t (dirname top)) n (reads_of w top (sfile_tcards false 0 tsf)) = [] /\
     List.length (bfsG (s_children w t (dirname top)) n (reads_of w top (sfile_tcards false 0 tsf))) <= fuel /\
-    ycards (ra_yields (read_all_ft w (tree_ft top (front ++ render tsf) t) top fuel))
+    ycards (ra_yields (read_all_gft w (tree_ft top (front ++ render tsf) t) "/" top fuel))
       = [(0, ["1 0 -1"]); (1, ["1 so 5"]); (2, ["mode n"]); (2, ["c lead"; "nps 10"])] /\
     ycards (ra_yields (read_single w (front ++ render (flatten w t top tsf n))))
       = [(0, ["1 0 -1"]); (1, ["1 so 5"]); (2, ["mode n"; "c lead"]); (2, ["nps 10"])].
@@ -159,25 +173,26 @@ Print Assumptions C20_flatten_lead_comment_refuted.
    the same from every working directory: read targets are resolved against the top-level file's directory. *)
 Theorem C20_cwd_free : forall w fs cwd cwd' top fuel,
   is_abs top = true -> read_all w fs cwd top fuel = read_all w fs cwd' top fuel.
-Proof. exact readq_cwd_free. Qed.
+Proof. exact g_cwd_free. Qed.
 Print Assumptions C20_cwd_free.
 
 (* 7. MISSING TARGET.  If the first read card (in breadth-first order) whose file is absent is reached, the reading
    ends in FileNotFoundError after handing on what came before; so does a missing top-level file. *)
-Theorem C20_missing : forall w ft top fuel ls ys0 q0 n pre it post,
+Theorem C20_missing : forall w ft cwd top fuel ls ys0 q0 n pre it post,
   ft top = Some ls ->
   scan_file w false 0 top (f_rest (read_front_matters ls)) = (ys0, q0, None) ->
   bfs n w ft (dirname top) q0 = pre ++ it :: post ->
   Forall (item_ok w ft (dirname top)) pre -> item_missing ft (dirname top) it ->
   List.length pre < fuel ->
-  ra_error (read_all_ft w ft top fuel) = Some E_FileNotFound /\
-  ra_yields (read_all_ft w ft top fuel) = ys0 ++ flat_map (item_yields w ft (dirname top)) pre.
-Proof. exact readq_missing. Qed.
+  ra_error (read_all_gft w ft cwd top fuel) <> Some E_Cycle ->
+  ra_error (read_all_gft w ft cwd top fuel) = Some E_FileNotFound /\
+  ra_yields (read_all_gft w ft cwd top fuel) = ys0 ++ flat_map (item_yields w ft (dirname top)) pre.
+Proof. exact g_missing. Qed.
 Print Assumptions C20_missing.
 
-Theorem C20_missing_top : forall w ft top fuel,
-  ft top = None -> ra_error (read_all_ft w ft top fuel) = Some E_FileNotFound.
-Proof. exact readq_missing_top. Qed.
+Theorem C20_missing_top : forall w ft cwd top fuel,
+  ft top = None -> ra_error (read_all_gft w ft cwd top fuel) = Some E_FileNotFound.
+Proof. exact g_missing_top. Qed.
 Print Assumptions C20_missing_top.
 
 Example C20_missing_hypotheses :
@@ -192,29 +207,63 @@ Proof. exact ex_missing. Qed.
 (* 8. WRITING.  What parse_input keeps (and write_to_file therefore writes, block by block: written_blocks) is every
    input of every file reached, in the order of 1, except exactly the read cards; and no read card is ever kept,
    whatever the files hold. *)
-Theorem C20_write_omits_only_read_cards : forall w ft top fuel ls ys0 q0 n,
+Theorem C20_write_omits_only_read_cards : forall w ft cwd top fuel ls ys0 q0 n,
   ft top = Some ls ->
   scan_file w false 0 top (f_rest (read_front_matters ls)) = (ys0, q0, None) ->
   Forall (item_ok w ft (dirname top)) (bfs n w ft (dirname top) q0) ->
   gen_at n w ft (dirname top) q0 = [] ->
   List.length (bfs n w ft (dirname top) q0) <= fuel ->
-  inputs_of (ra_yields (read_all_ft w ft top fuel))
+  ra_error (read_all_gft w ft cwd top fuel) <> Some E_Cycle ->
+  inputs_of (ra_yields (read_all_gft w ft cwd top fuel))
     = map (pair top) (filter (fun i => negb (is_name (classify i)))
                              (fst (read_data_rec w false 0 (f_rest (read_front_matters ls))))) ++
       flat_map (fun it => map (pair (item_path (dirname top) it))
                               (filter (fun i => negb (is_name (classify i))) (item_inputs w ft (dirname top) it)))
                (bfs n w ft (dirname top) q0).
-Proof. exact readq_kept. Qed.
+Proof. exact g_kept. Qed.
 Print Assumptions C20_write_omits_only_read_cards.
 
-Theorem C20_write_no_read_card : forall w ft top fuel,
-  Forall (fun c => is_name (classify_lines (snd c)) = false) (ycards (ra_yields (read_all_ft w ft top fuel))).
-Proof. exact readq_no_read_card. Qed.
+Theorem C20_write_no_read_card : forall w ft cwd top fuel,
+  Forall (fun c => is_name (classify_lines (snd c)) = false) (ycards (ra_yields (read_all_gft w ft cwd top fuel))).
+Proof. exact g_no_read_card. Qed.
 Print Assumptions C20_write_no_read_card.
 
-(* 9. CYCLE.  If the read cards reach a set S of read cards each of which leads to another one of S (all files there
-   and readable), no amount of fuel is enough: the drain loop of the code does not terminate ... *)
-Theorem C20_cycle : forall w ft top ls ys0 q0 (good S : qitem -> Prop),
+(* 9. TERMINATION.  For every file system, top-level file and working directory the reading ends: with R = the largest
+   number of lines of a file and n = the number of files, R (1 + R + ... + R^n) units of fuel (files opened) are never
+   used up.  (Each read card either ends the reading or is replaced by read cards whose files have one more distinct
+   existing file among the files that led to them.) *)
+Theorem C20_terminates : forall w fs cwd top fuel,
+  max_lines fs * wsum (max_lines fs) (List.length fs) <= fuel ->
+  ra_error (read_all w fs cwd top fuel) <> Some E_OutOfFuel.
+Proof. exact readq_terminates. Qed.
+Print Assumptions C20_terminates.
+
+(* 10. CYCLE.  A file that reads itself (cy2.i holds "nps 10" and "read file=cy2.i") is read once, then the cycle is
+   reported as MalformedInputError ... *)
+Theorem C20_cycle : forall fuel, 2 <= fuel ->
+  ra_error (read_all 128 cy_fs "/" "/p/top.i" fuel) = Some E_Cycle /\
+  ycards (ra_yields (read_all 128 cy_fs "/" "/p/top.i" fuel)) = [(0, ["1 0 -1"]); (1, ["1 so 5"]); (2, ["nps 10"])].
+Proof. exact cycle_reported. Qed.
+Print Assumptions C20_cycle.
+
+(* ... unless it reports a cycle the present drain loop is the loop without the cycle test ... *)
+Theorem C20_cycle_test_transparent : forall w fs cwd top fuel,
+  ra_error (read_all w fs cwd top fuel) <> Some E_Cycle ->
+  read_all w fs cwd top fuel = read_all_u w fs cwd top fuel.
+Proof. exact read_all_transparent. Qed.
+Print Assumptions C20_cycle_test_transparent.
+
+(* ... a file read through two read cards, one of them with ".." in its path, is not a cycle ... *)
+Example C20_cycle_test_quiet :
+  let fs := [ ("/p/top.i", cat [L "t"; L "1 0 -1"; L ""; L "1 so 5"; L ""; L "read file=a.i"; L "read file=sub/../a.i"]);
+              ("/p/a.i", cat [L "c only a comment"]); ("/p/sub/../a.i", cat [L "c only a comment"]) ] in
+  ra_error (read_all 128 fs "/" "/p/top.i" 3) = None /\
+  read_all 128 fs "/" "/p/top.i" 3 = read_all_u 128 fs "/" "/p/top.i" 3.
+Proof. exact guard_quiet_example. Qed.
+
+(* ... and the loop without the test (the code before /repo commit 2963569) never ended on such files: every set S of
+   read cards each of which leads to another one of S exhausts every fuel (montepy.read_input did not return). *)
+Theorem C20_without_cycle_test_diverges : forall w ft top ls ys0 q0 (good S : qitem -> Prop),
   ft top = Some ls ->
   scan_file w false 0 top (f_rest (read_front_matters ls)) = (ys0, q0, None) ->
   (forall it, good it -> item_ok w ft (dirname top) it /\ Forall good (item_children w ft (dirname top) it)) ->
@@ -222,24 +271,9 @@ Theorem C20_cycle : forall w ft top ls ys0 q0 (good S : qitem -> Prop),
   Forall good q0 -> Exists S q0 ->
   forall fuel, ra_error (read_all_ft w ft top fuel) = Some E_OutOfFuel.
 Proof. exact readq_cycle. Qed.
-Print Assumptions C20_cycle.
+Print Assumptions C20_without_cycle_test_diverges.
 
-(* ... and such files exist: cy2.i holds "nps 10" and "read file=cy2.i" (montepy.read_input never returns). *)
-Theorem C20_cycle_refuted : forall cwd fuel,
-  ra_error (read_all 128 cy_fs cwd "/p/top.i" fuel) = Some E_OutOfFuel.
+Theorem C20_without_cycle_test_refuted : forall cwd fuel,
+  ra_error (read_all_u 128 cy_fs cwd "/p/top.i" fuel) = Some E_OutOfFuel.
 Proof. exact cycle_example. Qed.
-Print Assumptions C20_cycle_refuted.
-
-(* 10. PROPOSED REPAIR C20-1 (proposed_fixes/C20-1.diff): the drain loop keeps, for every file read, the files that led
-   to it and refuses a read card whose target is one of them.  Unless it reports a cycle the guarded reader is the
-   reader of 1-9, so every statement above carries over; and on cy2.i it reports the cycle after one reading. *)
-Theorem C20_guard_transparent : forall w fs cwd top fuel,
-  ra_error (read_all_g w fs cwd top fuel) <> Some E_Cycle ->
-  read_all_g w fs cwd top fuel = read_all w fs cwd top fuel.
-Proof. exact read_all_g_transparent. Qed.
-Print Assumptions C20_guard_transparent.
-
-Example C20_guard_reports_cycle :
-  ra_error (read_all_g 128 cy_fs "/" "/p/top.i" 3) = Some E_Cycle /\
-  ycards (ra_yields (read_all_g 128 cy_fs "/" "/p/top.i" 3)) = [(0, ["1 0 -1"]); (1, ["1 so 5"]); (2, ["nps 10"])].
-Proof. exact cycle_guarded_example. Qed.
+Print Assumptions C20_without_cycle_test_refuted.
